@@ -11,15 +11,15 @@ namespace Tickit
 
 /-- assembling the tick equations for a tick of the master -/
 theorem tick_eqs_of {S : Static} (hS : S.Valid) {orc : Oracle} {n : Nat} (hst : S.ResolveStable n)
-    {σ₀ : SimSt} {t : SimTime} {Root : Comp → Prop} (ctx : TickCtx S σ₀ t Root)
-    (sctx : SchedCtx S σ₀ t Root) {fuel : Nat} {Lm : Level} (hLm : S.level "" = some Lm)
+    {σ₀ : SimSt} {t : SimTime} {Root Due : Comp → Prop} (ctx : TickCtx S σ₀ t Root)
+    (sctx : SchedCtx S σ₀ t Root Due) {fuel : Nat} {Lm : Level} (hLm : S.level "" = some Lm)
     {roots : List Comp} {st : SimSt}
     (hgen : GenPre S orc n σ₀ Root (fun _ => False) "" Lm roots [] st [])
-    (hsp : SchedPre S σ₀ Root "" Lm roots st [])
+    (hsp : SchedPre S σ₀ Root Due "" Lm roots st [])
     (hother : ∀ L, L ≠ "" → st.sched L = σ₀.sched L)
     {σ' : SimSt} {out : List (Port × V)}
     (ht : tickLevel S orc fuel "" t roots [] st = .ok (σ', out)) :
-    ∃ new, TickEqs S orc n σ₀ t Root σ' new ∧ SchedOK S σ' := by
+    ∃ new, TickEqs S orc n σ₀ t Root Due σ' new ∧ SchedOK S σ' := by
   obtain ⟨new, hobs, hnd, hown, _, _⟩ := tickLevel_post hS.toWF orc _ _ _ _ _ _ _ _ ht
   obtain ⟨new', hobs', hdev, _⟩ := tickLevel_gen hS orc hst ctx fuel _ _ _ _ _ _ _ _ _ ht hLm hgen
   have hnn : new' = new := List.append_cancel_left (hobs'.symm.trans hobs)
@@ -28,7 +28,7 @@ theorem tick_eqs_of {S : Static} (hS : S.Valid) {orc : Oracle} {n : Nat} (hst : 
   have hfr := tickLevel_frame hS.toWF orc fuel "" t roots [] st σ' out ht
   simp only [List.nil_append] at hdev hs
   have hobs0 : st.obs = σ₀.obs := by simpa using hgen.obs_eq
-  have hLok : ∀ P, (P = "" ∨ S.isSys P = true) → LvlOK S orc σ₀ Root P σ' new' := by
+  have hLok : ∀ P, (P = "" ∨ S.isSys P = true) → LvlOK S orc σ₀ Due P σ' new' := by
     rintro P (rfl | hsys)
     · exact hs.lvl_ok
     · exact (hs.below_ok P hsys (Static.below_master hS.toWF (hS.sys_parent P hsys))).1
@@ -57,7 +57,7 @@ theorem tick_eqs_of {S : Static} (hS : S.Valid) {orc : Oracle} {n : Nat} (hst : 
           obtain ⟨f1, f2⟩ := (hdv d hd).frame hnm
           refine ⟨f1, f2, fun P hP => ?_⟩
           have hnr : ¬ Root d := fun hr => hnm ((hdv d hd).upd_iff.2 (Or.inl hr))
-          exact (((hLok P (hpl _ P hP)).dev d hd hP).2 hnm).2 hnr }
+          exact (((hLok P (hpl _ P hP)).dev d hd hP).2 hnm).2 (fun hdd => hnr (sctx.due_sub d hdd)) }
   · exact
       { started := fun s hsys =>
           (hs.below_ok s hsys (Static.below_master hS.toWF (hS.sys_parent s hsys))).2
@@ -102,7 +102,7 @@ theorem tick_eqs_initial {S : Static} (hS : S.Valid) {orc : Oracle} {n : Nat} (h
     {fuel : Nat} {t0 : SimTime} {L : Level} (hL : S.level "" = some L) {σ' : SimSt}
     {out : List (Port × V)}
     (ht : tickLevel S orc fuel "" t0 L.wiring.components [] {} = .ok (σ', out)) :
-    ∃ new, TickEqs S orc n {} t0 (fun _ => True) σ' new ∧ SchedOK S σ' := by
+    ∃ new, TickEqs S orc n {} t0 (fun _ => True) (fun _ => True) σ' new ∧ SchedOK S σ' := by
   have hnone : ∀ p, S.resolve n "" pseudoExternal p = none := by
     intro p
     rw [← hst, Static.resolve_succ]
@@ -115,12 +115,14 @@ theorem tick_eqs_initial {S : Static} (hS : S.Valid) {orc : Oracle} {n : Nat} (h
         rw [mem_sunion]; right
         rw [SimSt.sched_empty]
         exact hc }
-  have sctx : SchedCtx S {} t0 (fun _ => True) :=
-    { due_root := fun _ _ _ _ => trivial
+  have sctx : SchedCtx S {} t0 (fun _ => True) (fun _ => True) :=
+    { due_sub := fun _ _ => trivial
+      due_up := fun _ _ _ _ _ => trivial
+      due_root := fun _ _ _ _ => trivial
       root_due := fun _ _ _ _ => Or.inr rfl
       keys₀ := by intro L c h; simp [SimSt.sched, agetD] at h
       unique₀ := by intro L; simp [SimSt.sched, agetD, UniqueKeys]
-      min₀ := fun _ _ _ _ => rfl
+      min₀ := fun _ _ _ _ _ => rfl
       started₀ := fun _ _ h => absurd trivial h }
   refine tick_eqs_of hS hst ctx sctx hL ?_ ?_ (fun _ _ => rfl) ht
   · exact
@@ -156,7 +158,7 @@ theorem tick_eqs {S : Static} (hS : S.Valid) {orc : Oracle} {n : Nat} (hst : S.R
     {fuel : Nat} {σ₀ : SimSt} (hsch : SchedOK S σ₀) {t : SimTime} {comps : List Comp}
     (hfw : firstWakeups (σ₀.sched "").wake = (comps, some t)) {σ' : SimSt} {out : List (Port × V)}
     (ht : tickLevel S orc fuel "" t comps [] (σ₀.delWake comps) = .ok (σ', out)) :
-    ∃ new, TickEqs S orc n σ₀ t (S.DueAt σ₀ t) σ' new ∧ SchedOK S σ' := by
+    ∃ new, TickEqs S orc n σ₀ t (S.DueAt σ₀ t) (S.DueAt σ₀ t) σ' new ∧ SchedOK S σ' := by
   obtain ⟨L, hL, _⟩ := tickLevel_ok_roots ht
   obtain ⟨hL1, hL2⟩ := Static.level_some hL
   have U := hsch.wake_unique
@@ -210,8 +212,10 @@ theorem tick_eqs {S : Static} (hS : S.Valid) {orc : Oracle} {n : Nat} (hst : S.R
             · rw [h', hS.pseudo_fresh.2.1] at hP; cases hP
           rw [hps] at hP; cases hP
           exact (hdue s c).2 ⟨w, hw, hle⟩ }
-  have sctx : SchedCtx S σ₀ t (S.DueAt σ₀ t) :=
-    { due_root := fun s c _ h => hdue_root s c h
+  have sctx : SchedCtx S σ₀ t (S.DueAt σ₀ t) (S.DueAt σ₀ t) :=
+    { due_sub := fun _ h => h
+      due_up := ctx.root_up
+      due_root := fun s c _ h => hdue_root s c h
       root_due := by
         rintro s c _ ⟨P, w, hP, hw, hle⟩
         by_cases hPs : P = s
@@ -226,7 +230,7 @@ theorem tick_eqs {S : Static} (hS : S.Valid) {orc : Oracle} {n : Nat} (hst : S.R
             exact absurd rfl hPs
       keys₀ := K
       unique₀ := U
-      min₀ := hsch.wake_sys
+      min₀ := fun s P hs hP _ => hsch.wake_sys s P hs hP
       started₀ := fun s hs _ => hsch.started s hs }
   -- the roots of the master are the components with a due entry
   have hroots : ∀ c ∈ L.wiring.components, c ≠ pseudoExternal → (c ∈ comps ↔ S.DueAt σ₀ t c) := by
